@@ -1,6 +1,7 @@
 import FordModel.Proto
 import FordModel.ProjectLoop
 import FordModel.EnumValues
+import FordModel.IncludeNest
 namespace Ford
 open Proto
 
@@ -90,6 +91,25 @@ def showEnum (es : List EnumValues.Enumerator) : List Str :=
   | .ok vs => ["ok".toList, "values".toList, commaJoin (vs.map showInt)]
   | .error n => ["ok".toList, "raised".toList, n]
 
+def splitComma : Str → Str → List Str
+  | [], cur => [cur.reverse]
+  | c :: cs, cur => if c == ',' then cur.reverse :: splitComma cs [] else splitComma cs (c :: cur)
+
+def pathOf (s : Str) : IncludeNest.Path := IncludeNest.joinPath [] s
+def showPath (p : IncludeNest.Path) : Str := '/' :: joinSep '/' p
+
+/-- one file: path, `U` | `R` | `I`, items -/
+def incFileOf : List Str → Option (IncludeNest.Path × IncludeNest.FileBody)
+  | p :: k :: its =>
+    some (pathOf p, if k == ['U'] then .undecodable else if k == ['R'] then .refusedAfter its else .items its)
+  | _ => none
+
+def showIncErr : IncludeNest.IncErr → List Str
+  | .missing n => ["missing".toList, n]
+  | .undecodable f => ["undecodable".toList, showPath f]
+  | .refused f => ["refused".toList, showPath f]
+  | .recursion => ["recursion".toList]
+
 end C20D
 
 open C20D in
@@ -110,6 +130,16 @@ def dispatchC20 : List Str → Option (List Str)
         | ss :: enums => some (showOutcome (EnumValues.fileWithEnums (parseFile (cfgOf d f r) (stmtsOf ss))
                                  ((enums.filter (fun l => !l.isEmpty)).map enumeratorsOf)))
         | [] => some ["bad-request".toList]
+      | _ => some ["bad-request".toList]
+    else if cmd == "c20.include".toList then
+      -- depth, top file, inc_dirs (comma separated) | file | file ...  ->  items | error
+      match splitBar args [] with
+      | (d :: top :: dirs) :: files =>
+        let fs := files.filterMap incFileOf
+        let incDirs := ((splitComma (dirs.headD []) []).filter (fun x => !x.isEmpty)).map pathOf
+        match IncludeNest.readFile fs incDirs (natOf d) (pathOf top) with
+        | .ok its => some ("ok".toList :: "items".toList :: its)
+        | .error e => some ("ok".toList :: "error".toList :: showIncErr e)
       | _ => some ["bad-request".toList]
     else if cmd == "c20.row".toList then
       match args with
